@@ -397,4 +397,125 @@ theorem run_outs (file : Bytes) (hF : IsI64 (file.length : Int)) : ∀ (steps : 
       (run_outs file hF xs _ (step_inv file st hinv hF x (h x (List.mem_cons_self ..)))
         (fun y hy => h y (List.mem_cons_of_mem _ hy)))
 
+/-! ## a whole GetRange, and ReadAt on top of it -/
+
+theorem getRange_correct (file : Bytes) (ks1 ks2 : Order) (ctx1 ctx2 : Ctx) (st : State) (hinv : Inv file st)
+    (start ln : Int) (f : Fetch) (hF : IsI64 (file.length : Int)) (hs : IsI64 start) (hl : IsI64 ln)
+    (hf : f.Honest file start ln) :
+    let r := getRange ks1 ks2 ctx1 ctx2 (file.length : Int) st start ln f
+    Inv file r.1 ∧
+    (((start < 0 ∨ ln < 0 ∨ start + ln > (file.length : Int)) ∧ r = (st, .err .range))
+     ∨ ((0 ≤ start ∧ 0 ≤ ln ∧ start + ln ≤ (file.length : Int)) ∧
+         (r = (st, .err .ctx) ∧ ctx1 ≠ none ∨ f.failed = true ∧ r = (st, .err .fetch)
+           ∨ r.2 = .ok (slice file start.toNat ln.toNat)))) := by
+  intro r
+  have hc := check_correct file ks1 ctx1 st hinv start ln hF hs hl
+  have hfs := fetchSet_correct file ks2 ctx2 st hinv start ln f hF hs hl hf
+  simp only at hc
+  rcases hc with ⟨h, hr⟩ | ⟨hr, h | h | h⟩
+  · have : r = (st, .err .range) := by simp [r, getRange, h]
+    exact ⟨by rw [this]; exact hinv, Or.inl ⟨hr, this⟩⟩
+  · have : r = fetchSet ks2 ctx2 (file.length : Int) st start ln f := by simp [r, getRange, h]
+    rw [this]
+    refine ⟨hfs.1, ?_⟩
+    rcases hfs.2 with ⟨ho, _⟩ | ⟨_, h2 | h2⟩
+    · omega
+    · exact Or.inr ⟨hr, Or.inr (Or.inl h2)⟩
+    · exact Or.inr ⟨hr, Or.inr (Or.inr h2.2)⟩
+  · have : r = (st, .err .ctx) := by simp [r, getRange, h.1]
+    exact ⟨by rw [this]; exact hinv, Or.inr ⟨hr, Or.inl ⟨this, h.2⟩⟩⟩
+  · have : r = (st, .ok (slice file start.toNat ln.toNat)) := by simp [r, getRange, h]
+    exact ⟨by rw [this]; exact hinv, Or.inr ⟨hr, Or.inr (Or.inr (by rw [this]))⟩⟩
+
+theorem readAt_correct (file : Bytes) (ks1 ks2 : Order) (st : State) (hinv : Inv file st) (pLen : Nat) (off : Int) (f : Fetch)
+    (hF : IsI64 (file.length : Int)) (ho : IsI64 off) (hp : IsI64 (pLen : Int)) (hf : f.Honest file off pLen) :
+    let r := readAt ks1 ks2 (file.length : Int) st pLen off f
+    Inv file r.1 ∧
+    ((off ≥ (file.length : Int) ∧ r = (st, .ret [] .eof))
+     ∨ (off < (file.length : Int) ∧ (off < 0 ∨ off + pLen > (file.length : Int)) ∧ r = (st, .ret [] (.other .range)))
+     ∨ (0 ≤ off ∧ off + pLen ≤ (file.length : Int) ∧ off < (file.length : Int) ∧
+         (r.2 = .ret (slice file off.toNat pLen) .nil ∨ f.failed = true ∧ r = (st, .ret [] (.other .fetch))))) := by
+  intro r
+  by_cases h0 : off ≥ (file.length : Int)
+  · have : r = (st, .ret [] .eof) := by simp [r, readAt, h0]
+    exact ⟨by rw [this]; exact hinv, Or.inl ⟨h0, this⟩⟩
+  · have hg := getRange_correct file ks1 ks2 none none st hinv off pLen f hF ho hp hf
+    simp only at hg
+    have hr : r = match getRange ks1 ks2 none none (file.length : Int) st off pLen f with
+        | (st', .ok v) => if min pLen v.length < pLen then (st', .ret (v.take (min pLen v.length)) .unexpectedEOF)
+                          else (st', .ret (v.take (min pLen v.length)) .nil)
+        | (st', .err c) => (st', .ret [] (.other c))
+        | (st', .panic) => (st', .panic) := by
+      simp only [r, readAt, if_neg h0]
+    generalize hgr : getRange ks1 ks2 none none (file.length : Int) st off pLen f = g at hg hr
+    obtain ⟨g1, g2⟩ := g
+    obtain ⟨hi, hcase⟩ := hg
+    rcases hcase with ⟨hout, hq⟩ | ⟨hin, hq | hq | hq⟩
+    · cases hq
+      have : r = (st, .ret [] (.other .range)) := by rw [hr]
+      refine ⟨by rw [this]; exact hinv, Or.inr (Or.inl ⟨by omega, ?_, this⟩)⟩
+      rcases hout with h | h | h
+      · exact Or.inl h
+      · omega
+      · exact Or.inr h
+    · exact absurd rfl hq.2
+    · cases hq.2
+      have : r = (st, .ret [] (.other .fetch)) := by rw [hr]
+      exact ⟨by rw [this]; exact hinv, Or.inr (Or.inr ⟨hin.1, hin.2.2, by omega, Or.inr ⟨hq.1, this⟩⟩)⟩
+    · simp only at hq
+      subst hq
+      have hlen : (slice file off.toNat (pLen : Int).toNat).length = pLen := by
+        rw [slice_length _ _ _ (by omega)]; simp
+      have : r = (g1, .ret (slice file off.toNat pLen) .nil) := by
+        rw [hr]
+        simp only [hlen, Nat.min_self, Nat.lt_irrefl, if_false]
+        congr 2
+        have := List.take_length (l := slice file off.toNat (pLen : Int).toNat)
+        rw [hlen] at this
+        simpa using this
+      exact ⟨by rw [this]; exact hi, Or.inr (Or.inr ⟨hin.1, hin.2.2, by omega, Or.inl (by rw [this])⟩)⟩
+
+/-! ## remoteReadAt: the HTTP fetcher honours the fetcher contract, provided it looks at the status -/
+
+/-- an HTTP server that may fail in any way it likes (no answer, any error status with any body, a body cut short)
+    but whose 206 answers to `Range: bytes=off-(off+ln)` carry the file's bytes from `off` on -/
+def HonestServer (file : Bytes) (off ln : Nat) (attempts : List HttpResp) : Prop :=
+  ∀ body, HttpResp.resp 206 body ∈ attempts → body <+: honestBody file off ln
+
+theorem firstResp_mem : ∀ (attempts : List HttpResp) (s : Nat) (b : Bytes), firstResp attempts = some (s, b) →
+    HttpResp.resp s b ∈ attempts := by
+  intro attempts s b h
+  unfold firstResp at h
+  obtain ⟨r, hr, hv⟩ := List.exists_of_findSome?_eq_some h
+  cases r with
+  | transportErr => simp at hv
+  | resp s' b' =>
+    simp at hv
+    obtain ⟨rfl, rfl⟩ := hv
+    exact List.mem_of_mem_take hr
+
+theorem remoteReadAt_contract (file : Bytes) (off ln : Nat) (attempts : List HttpResp)
+    (hsrv : HonestServer file off ln attempts) (hok : (remoteReadAt true ln attempts).failed = false) :
+    (remoteReadAt true ln attempts).buf = slice file off ln := by
+  unfold remoteReadAt at hok ⊢
+  cases hfr : firstResp attempts with
+  | none => simp [hfr] at hok
+  | some sb =>
+    obtain ⟨status, body⟩ := sb
+    simp only [hfr] at hok ⊢
+    by_cases hst : status = 206
+    · subst hst
+      by_cases hlen : body.length < ln
+      · simp [hlen] at hok
+      · simp only [bne_self_eq_false, Bool.and_false, Bool.false_eq_true, if_false, hlen]
+        obtain ⟨t, ht⟩ := hsrv body (firstResp_mem attempts 206 body hfr)
+        have h1 : (honestBody file off ln).take ln = body.take ln := by
+          rw [← ht, List.take_append_of_le_length (by omega)]
+        rw [← h1]
+        unfold honestBody slice
+        rw [List.take_take]
+        congr 1; omega
+    · have : (status != 206) = true := by simpa using hst
+      simp [this] at hok
+
 end RC
